@@ -1,6 +1,7 @@
 import Pi2.Props.C08
 import Pi2.Props.C02
 import Pi2.ProofTie
+import Pi2.ComposeTie
 /-!
 # C08 / C03 / C02 — the proof generator as written is the model
 
@@ -18,6 +19,15 @@ The model spends fuel per list element where Python has a loop, so each tie is a
 what the model answers at fuel `n` the generated code answers at every fuel `N ≥ n`, and what the
 generated code answers the model answers at some fuel.  (A separate module because `ProofTie` needs the
 fuel-monotonicity lemmas of `Pi2.MM.Mono`.)
+
+**Composition** (`Pi2/ComposeTie.lean`, the `*_on_stateful_text_*` theorems below): the same generated proof
+generator running on the *generated* `StatefulInterpreter` (`ComposeTie.statefulI`: the methods of
+`Pi2/Gen/PyInterp.lean` applied to the arguments they are given) instead of on `callI`.  The calling convention
+that `track1` builds in — every method receives the terms that are on top of the stack — is a theorem about the
+generated proof generator (`calling_convention_of_the_proof_text`), so each call of a translated method is the
+`track1` step preceded by the reflexive comparisons `t == t` of the entries it consumes; what a run returns on
+the one object it returns on the other (to the tracker: unconditionally; from the tracker: given the fuel for
+those comparisons — `ComposeTie.Refl`, `SubRefl`, `ConcsReflM`, `ModuleRefl`).
 -/
 namespace C08
 open PySt PyI Gen.PyProof ProofTie
@@ -111,6 +121,132 @@ theorem proof_text_asserts {τ : Type} (O : Interp τ) :
    fun N t => dynamic_inst_empty N t,
    fun N t δ => ProofTie.instantiate_eq N t δ⟩
 
+/-! ## the proof generator as written, on `StatefulInterpreter` as written -/
+
+open ComposeTie in
+/-- **the generated `StatefulInterpreter` as an object is the checking tracker**: called with the terms that are
+on the stack, every method of `statefulI M` (the translated method of `Pi2/Gen/PyInterp.lean` applied to its
+arguments) returns exactly what the tracker's method (`callI M`) returns, provided the reflexive comparisons of
+the entries it consumes evaluate to `True` within fuel `M` (and returns nothing otherwise); also under the
+generated `InterpreterTransformer` -/
+theorem stateful_text_object_is_the_checking_tracker (M : Nat) :
+    Checks (fun σ => σ) M (statefulI M) ∧ Checks embM M (InterpreterTransformer.obj (statefulI M)) :=
+  ⟨checks_stateful M, checks_transformer M⟩
+
+open ComposeTie in
+/-- **the calling convention is a theorem about the proof generator as written**: on the tracker (plain or under
+`MemoizingInterpreter`) the value `Interpreter.pattern` returns for `p` is `p` itself and it is the one new entry
+on top of the stack; the `Proved` which a thunk of the generated rule constructors returns is the one new entry
+on top of the stack.  Hence every interpreter method is called with exactly the terms on top of the stack. -/
+theorem calling_convention_of_the_proof_text (N : Nat) :
+    (∀ k (σ : ProofTie.St) p σ' v, (trackerK N k).pattern σ p = some (some (σ', v)) →
+      v = p ∧ σ'.1.stack = (.pat p, false) :: σ.1.stack) ∧
+    (∀ S k (σ : ProofTie.St) p τ' v, (memoK N k S).pattern (embM σ) p = some (some (τ', v)) →
+      v = p ∧ ∃ σ' : ProofTie.St, τ' = embM σ' ∧ σ'.1.stack = (.pat p, false) :: σ.1.stack) ∧
+    (∀ k ax pf (t : ProofThunk ProofTie.St) (σ : ProofTie.St) σ' pr, KeysNodup pf → build N ax pf = some (some t) →
+      ProofThunk.__call__ N t (trackerK N k) σ = some (some (σ', pr)) →
+      σ'.1.stack = (.proved pr.conclusion, false) :: σ.1.stack) ∧
+    (∀ S k ax pf (t : ProofThunk (TrSt ProofTie.St)) (σ : ProofTie.St) τ' pr, KeysNodup pf →
+      build N ax pf = some (some t) →
+      ProofThunk.__call__ N t (memoK N k S) (embM σ) = some (some (τ', pr)) →
+      ∃ σ' : ProofTie.St, τ' = embM σ' ∧ σ'.1.stack = (.proved pr.conclusion, false) :: σ.1.stack) := by
+  refine ⟨fun k σ p σ' v h => ?_, fun S k σ p τ' v h => ?_, fun k ax pf t σ σ' pr hk ht h => ?_,
+    fun S k ax pf t σ τ' pr hk ht h => ?_⟩
+  · obtain ⟨σ1, e1, e2, hs⟩ := pattern_id N k σ p σ' v h
+    simp only at e1; subst e1; exact ⟨e2, hs⟩
+  · obtain ⟨σ1, e1, e2, hs⟩ := memo_pattern_id N S k σ p τ' v h
+    exact ⟨e2, σ1, e1, hs⟩
+  · obtain ⟨σ1, e1, hs⟩ := run_top (fun σ => σ) ax (emits_tracker N k) (pattern_id N k) pf hk t ht σ σ' pr h
+    simp only at e1; subst e1; exact hs
+  · exact run_top embM ax (emits_memo N k S) (memo_pattern_id N S k) pf hk t ht σ τ' pr h
+
+open ComposeTie in
+/-- **the composition**: the generated proof generator on the generated `StatefulInterpreter` (`statefulK`) against
+the same generated code on the tracker object (`trackerK`), at the same fuel and recursion depth.  Patterns:
+what `statefulK` returns `trackerK` returns; what `trackerK` returns `statefulK` returns when the fuel suffices for
+the reflexive comparisons of the sub-patterns.  Proof expressions (dicts with distinct keys): the same, the fuel
+hypothesis being on the conclusions of the consumed sub-proofs and on the plugs. -/
+theorem proof_text_on_stateful_text_is_proof_text_on_tracker (N k : Nat) :
+    (∀ (σ : ProofTie.St) p x, (statefulK N k).pattern σ p = some (some x) →
+      (trackerK N k).pattern σ p = some (some x)) ∧
+    (∀ (σ : ProofTie.St) p x, SubRefl N p → (trackerK N k).pattern σ p = some (some x) →
+      (statefulK N k).pattern σ p = some (some x)) ∧
+    (∀ ax pf (t : ProofThunk ProofTie.St) (σ : ProofTie.St) x, KeysNodup pf → build N ax pf = some (some t) →
+      ProofThunk.__call__ N t (statefulK N k) σ = some (some x) →
+      ProofThunk.__call__ N t (trackerK N k) σ = some (some x)) ∧
+    (∀ ax pf (t : ProofThunk ProofTie.St) (σ : ProofTie.St) x, KeysNodup pf → build N ax pf = some (some t) →
+      ConcsRefl (fun σ => σ) N N ax (trackerK N k) pf →
+      ProofThunk.__call__ N t (trackerK N k) σ = some (some x) →
+      ProofThunk.__call__ N t (statefulK N k) σ = some (some x)) :=
+  ⟨fun σ p x h => pattern_S N k σ p x h, fun σ p x hp h => pattern_C N k σ p x hp h,
+   fun ax pf t σ x hk ht h =>
+     run_S (fun σ => σ) ax (checks_statefulK N k) (emits_tracker N k) (pattern_id N k) (pattern_S N k) pf hk t ht σ x h,
+   fun ax pf t σ x hk ht hr h =>
+     run_C (fun σ => σ) ax (checks_statefulK N k) (emits_tracker N k) (pattern_id N k) (pattern_C N k) pf hk hr t ht σ x h⟩
+
+open ComposeTie in
+/-- **`Interpreter.pattern` as written, running on `StatefulInterpreter` as written, is `patternF`** — plain and
+through `MemoizingInterpreter` as written: a walk of the model that returns is the walk of the text (given the
+fuel `SubRefl N p` for the reflexive comparisons), a walk of the text that returns is a walk of the model: same
+state, same calls; the value returned is the pattern itself, pushed on the stack -/
+theorem pattern_text_on_stateful_text_is_the_model (N : Nat) (s : PySt) (p : NPat) (acc : List Call) :
+    ((∀ n s' a', n ≤ N → SubRefl N p → patternF {} n s p acc = some (some (s', a')) →
+        (statefulK N N).pattern (s, acc) p = some (some ((s', a'), p))) ∧
+      (∀ σ' v, (statefulK N N).pattern (s, acc) p = some (some (σ', v)) →
+        v = p ∧ σ'.1.stack = (.pat p, false) :: s.stack ∧ ∃ m, patternF {} m s p acc = some (some σ'))) ∧
+    (∀ S : List NPat,
+      (∀ n s' a', n ≤ N → SubRefl N p → patternF { memo := some S } n s p acc = some (some (s', a')) →
+        (statefulMemoK N N S).pattern (embM (s, acc)) p = some (some (embM (s', a'), p))) ∧
+      (∀ τ' v, (statefulMemoK N N S).pattern (embM (s, acc)) p = some (some (τ', v)) →
+        v = p ∧ ∃ σ' : ProofTie.St, τ' = embM σ' ∧ σ'.1.stack = (.pat p, false) :: s.stack ∧
+          ∃ m, patternF { memo := some S } m s p acc = some (some σ'))) :=
+  ⟨pattern_stateful_model N s p acc, fun S => memo_pattern_stateful_model N S s p acc⟩
+
+open ComposeTie in
+/-- **a proof expression as written, running on `StatefulInterpreter` as written, is `runF`** (dicts with distinct
+keys), plain and through `MemoizingInterpreter` as written: a `ProofThunk` built by the translated `ProofExp`
+and run on the translated `StatefulInterpreter` (closed under the translated `Interpreter.pattern`) returns iff
+`Pf.runF` of the model returns — same final state, same calls, same conclusion; the `Proved` it returns is the
+one new entry on the stack.  Model → text needs the fuel `ConcsReflM` for the reflexive comparisons. -/
+theorem proof_text_on_stateful_text_is_the_model (N : Nat) (ax : List NPat) (s : PySt) (pf : Pf) (acc : List Call)
+    (hk : KeysNodup pf) :
+    ((∀ n s' a' c, n ≤ N → ConcsReflM N {} ax pf → Pf.runF {} ax n s pf acc = some (some (s', a', c)) →
+        ∃ t : ProofThunk ProofTie.St, build N ax pf = some (some t) ∧
+          ProofThunk.__call__ N t (statefulK N N) (s, acc) = some (some ((s', a'), ⟨c⟩))) ∧
+      (∀ (t : ProofThunk ProofTie.St) σ' pr, build N ax pf = some (some t) →
+        ProofThunk.__call__ N t (statefulK N N) (s, acc) = some (some (σ', pr)) →
+        σ'.1.stack = (.proved pr.conclusion, false) :: s.stack ∧
+          ∃ m, Pf.runF {} ax m s pf acc = some (some (σ'.1, σ'.2, pr.conclusion)))) ∧
+    (∀ S : List NPat,
+      (∀ n s' a' c, n ≤ N → ConcsReflM N { memo := some S } ax pf →
+        Pf.runF { memo := some S } ax n s pf acc = some (some (s', a', c)) →
+        ∃ t : ProofThunk (TrSt ProofTie.St), build N ax pf = some (some t) ∧
+          ProofThunk.__call__ N t (statefulMemoK N N S) (embM (s, acc)) = some (some (embM (s', a'), ⟨c⟩))) ∧
+      (∀ (t : ProofThunk (TrSt ProofTie.St)) τ' pr, build N ax pf = some (some t) →
+        ProofThunk.__call__ N t (statefulMemoK N N S) (embM (s, acc)) = some (some (τ', pr)) →
+        ∃ m s' a', Pf.runF { memo := some S } ax m s pf acc = some (some (s', a', pr.conclusion)) ∧
+          τ' = embM (s', a') ∧ s'.stack = (.proved pr.conclusion, false) :: s.stack)) :=
+  ⟨run_stateful_model N ax s pf acc hk, fun S => run_memo_stateful_model N S ax s pf acc hk⟩
+
+open ComposeTie in
+/-- the composition is not vacuous (a proof expression does run on the generated `StatefulInterpreter`, plain
+and memoising with a `load`), and the generated `StatefulInterpreter` is not the argument-ignoring `callI`: called
+with a term that is not on the stack it raises -/
+theorem stateful_text_nonvacuous :
+    (((build (τ := ProofTie.St) 40 [] witnessPf).bind fun o => o.bind fun t =>
+      (ProofThunk.__call__ 40 t (statefulK 40 40) (PySt.init [], [])).map
+        (Option.map fun x => (x.1.2.length, x.1.1.stack.length))) = some (some (10, 1)) ∧
+    ((build (τ := TrSt ProofTie.St) 40 [] witnessPf).bind fun o => o.bind fun t =>
+      (ProofThunk.__call__ 40 t (statefulMemoK 40 40 [])
+          (embM ({ PySt.init [] with memory := [.pat (phiN 2)] }, []))).map
+        (Option.map fun x => (x.1.sub.2.length, x.1.sub.1.stack.length,
+          x.1.sub.2.any fun c => match c with | .load _ => true | _ => false))) = some (some (10, 1, true))) ∧
+    (let σ0 : ProofTie.St := ({ PySt.init [] with stack := [(.pat (.evar 1), false), (.pat (.evar 0), false)] }, [])
+     ((statefulI 5).implies σ0 (.evar 7) (.evar 1)).map Option.isSome = some false ∧
+     ((callI 5).implies σ0 (.evar 7) (.evar 1)).map Option.isSome = some true ∧
+     ((statefulI 5).implies σ0 (.evar 0) (.evar 1)).map Option.isSome = some true) :=
+  ⟨stateful_nonvacuous, stateful_object_checks_its_arguments⟩
+
 end C08
 
 namespace C03
@@ -160,6 +296,42 @@ theorem serialize_text_shape {σ : Type} (n : Nat) (self : (τ : Type) → Proof
     (∀ N j S st, MemoizingInterpreter.new N (trackerK N j) st (some S) = (memoK N N S, embM st)) :=
   ⟨serialize_shape n self mkS mkC finalize, fun N j S st => memo_new_eq N j S st⟩
 
+open ComposeTie in
+/-- **`execute_full` as written, running on `StatefulInterpreter` as written, is `executeFull`** (dicts with
+distinct keys).  Model → text: besides `hself` of `phases_text_is_the_model`, the fuel `ModuleRefl` for the
+reflexive comparisons of the tracker's assertions (axioms, claims, conclusions).  Text → model: unconditional. -/
+theorem phases_text_on_stateful_text_is_the_model (N : Nat) (m : PModule) (hk : ∀ pf ∈ m.proofsOf, KeysNodup pf) :
+    (∀ n s' a', n ≤ N → PModule.depth m ≤ N →
+      (∀ pf ∈ m.proofsOf, ∀ k adv, Pf.concF m.axiomsOf k pf = some (some adv) → NPat.peqF N adv adv = some true) →
+      ModuleRefl N {} m →
+      PModule.executeFull {} n m = some (some (s', a')) →
+      ∃ thunks : List (ProofThunk ProofTie.St), buildAll N m.axiomsOf m.proofsOf = some (some thunks) ∧
+        ∀ f, ProofExp.execute_full N (expOf thunks f m) (statefulK N N) (PySt.init m.claimsOf, [])
+          = some (some (s', a'))) ∧
+    (∀ (thunks : List (ProofThunk ProofTie.St)) f σ', buildAll N m.axiomsOf m.proofsOf = some (some thunks) →
+      ProofExp.execute_full N (expOf thunks f m) (statefulK N N) (PySt.init m.claimsOf, []) = some (some σ') →
+      ∃ n, PModule.executeFull {} n m = some (some σ')) :=
+  execute_stateful_model N m hk
+
+open ComposeTie in
+/-- the same through `MemoizingInterpreter(StatefulInterpreter, S)` as written — the object that `serialize`
+builds over a stateful serializer (`MemoizingInterpreter.new … = (statefulMemoK N N S, embM σ)`) -/
+theorem memo_phases_text_on_stateful_text_is_the_model (N : Nat) (S : List NPat) (m : PModule)
+    (hk : ∀ pf ∈ m.proofsOf, KeysNodup pf) :
+    ((∀ n s' a', n ≤ N → PModule.depth m ≤ N →
+      (∀ pf ∈ m.proofsOf, ∀ k adv, Pf.concF m.axiomsOf k pf = some (some adv) → NPat.peqF N adv adv = some true) →
+      ModuleRefl N { memo := some S } m →
+      PModule.executeFull { memo := some S } n m = some (some (s', a')) →
+      ∃ thunks : List (ProofThunk (TrSt ProofTie.St)), buildAll N m.axiomsOf m.proofsOf = some (some thunks) ∧
+        ∀ f, ProofExp.execute_full N (expOf thunks f m) (statefulMemoK N N S) (embM (PySt.init m.claimsOf, []))
+          = some (some (embM (s', a')))) ∧
+    (∀ (thunks : List (ProofThunk (TrSt ProofTie.St))) f τ', buildAll N m.axiomsOf m.proofsOf = some (some thunks) →
+      ProofExp.execute_full N (expOf thunks f m) (statefulMemoK N N S) (embM (PySt.init m.claimsOf, []))
+        = some (some τ') →
+      ∃ n s' a', PModule.executeFull { memo := some S } n m = some (some (s', a')) ∧ τ' = embM (s', a'))) ∧
+    (∀ j st, MemoizingInterpreter.new N (statefulK N j) st (some S) = (statefulMemoK N N S, embM st)) :=
+  ⟨execute_memo_stateful_model N S m hk, fun j st => memo_new_stateful N j S st⟩
+
 end C03
 
 #print axioms C08.proof_text_translated
@@ -173,3 +345,11 @@ end C03
 #print axioms C03.phases_text_is_the_model
 #print axioms C03.memo_phases_text_is_the_model
 #print axioms C03.serialize_text_shape
+#print axioms C08.stateful_text_object_is_the_checking_tracker
+#print axioms C08.calling_convention_of_the_proof_text
+#print axioms C08.proof_text_on_stateful_text_is_proof_text_on_tracker
+#print axioms C08.pattern_text_on_stateful_text_is_the_model
+#print axioms C08.proof_text_on_stateful_text_is_the_model
+#print axioms C03.phases_text_on_stateful_text_is_the_model
+#print axioms C03.memo_phases_text_on_stateful_text_is_the_model
+#print axioms C08.stateful_text_nonvacuous
